@@ -90,6 +90,16 @@ class NumInterp:
             if a is self.value and b in (0, 0.0):
                 return False          # the decade excludes zero (zero is its own concrete case)
             raise NotEncoded("comparison")
+        if isinstance(e, ast.BoolOp):
+            vals = [self.ev(x, env) for x in e.values]
+            if not all(isinstance(x, bool) for x in vals):
+                raise NotEncoded("symbolic boolean operator")
+            return all(vals) if isinstance(e.op, ast.And) else any(vals)
+        if isinstance(e, ast.UnaryOp) and isinstance(e.op, ast.Not):
+            x = self.ev(e.operand, env)
+            if not isinstance(x, bool):
+                raise NotEncoded("symbolic not")
+            return not x
         if isinstance(e, ast.BinOp):
             a, b = self.ev(e.left, env), self.ev(e.right, env)
             return self.arith(e.op, a, b)
@@ -101,6 +111,10 @@ class NumInterp:
             args = [self.ev(a, env) for a in e.args]
             if name == "abs" and args[0] is self.value:
                 return ("abs",)
+            if name in ("isfinite",) and args[0] is self.value:
+                return True           # the decades hold finite values (the three non-finite values are a concrete case of their own)
+            if name in ("isinf", "isnan") and args[0] is self.value:
+                return False
             if name == "log10" and args[0] == ("abs",):
                 return Log(self.e, self.exact)
             if name in ("ceil", "floor", "int", "trunc") and isinstance(args[0], Log):
@@ -205,5 +219,21 @@ def run_round(rep, tier):
     else:
         rep.ob("round-significant", "discharged", dt, queries=nq,
                how="for every decade 10^%d..10^%d (open decade and exact power), every setting 6..15 and every real value: the result is within half a unit of the last significant digit" % (lo_e, hi_e))
+    # the three non-finite floats (a scalar such as exp(1000) is inf): the function must return, not raise (exhaustive over {inf, -inf, nan})
+    t1 = time.time()
+    bad_nf = []
+    for x in (float("inf"), float("-inf"), float("nan")):
+        for sig in (6, 15):
+            try:
+                EX._round_significant(x, sig)
+            except Exception as ex:  # noqa
+                bad_nf.append((x, sig, "%s: %s" % (type(ex).__name__, ex)))
+    if bad_nf:
+        key = "C30:round-significant:non-finite"
+        what = "_round_significant(%r, %d) raises %s: a raw Python error escapes run() for a non-finite scalar result (e.g. exp(1000))" % bad_nf[0]
+        st = rep.violation(key, what, dict(value=repr(bad_nf[0][0]), digits=bad_nf[0][1], error=bad_nf[0][2]))
+        rep.ob("round-significant:non-finite", st, time.time() - t1, key=key, what=what)
+    else:
+        rep.ob("round-significant:non-finite", "discharged", time.time() - t1, how="inf, -inf and nan are returned unchanged (all three values, 2 settings)")
     rep.functions.append("io/_execution._round_significant (current source translated into real arithmetic, one decade per query)")
     rep.outside.append("last-bit behaviour of math.log10 / round on binary floats; magnitudes beyond the decades analysed; how _normalize_scalar_value obtains the setting")
